@@ -134,7 +134,7 @@ macro_rules! comp_subject {
             const FORMAT: &'static str = $name;
             const COMPRESSED: bool = true;
             fn s_extra_reads(&self, from: usize, to: usize, out: &mut vecreads::Extra<T>) {
-                vecreads::comp_extra(self, from, to, out);
+                crate::comp_extra_body!(self, from, to, out);
             }
         }
     };
@@ -241,6 +241,10 @@ pub struct VecCfg {
     pub max_len: usize,
     pub commit_deltas: Vec<u64>,
     pub max_commits: usize,
+    pub op_timeout_ms: u64,
+    /// also run the cursor-based read paths on vectors with deleted slots (known to loop
+    /// forever / panic there, see F8; each such case costs one watchdog timeout)
+    pub holed_cursor: bool,
 }
 
 impl VecCfg {
@@ -253,6 +257,8 @@ impl VecCfg {
 pub struct Snap<T> {
     pub items: Vec<Option<T>>,
     pub stamp: u64,
+    /// the commit that produced this state had truncated since its predecessor
+    pub truncating: bool,
 }
 
 /// Reference model.
@@ -278,6 +284,12 @@ pub struct Model<T> {
     pub uncommitted: bool,
     /// an unstamped write happened while uncommitted edits existed (rollback then undefined)
     pub tainted: bool,
+    pub truncated_since_commit: bool,
+    /// stamps of change records a fault operation has damaged on disk
+    pub damaged: BTreeSet<u64>,
+    /// a truncating commit was rolled back and nothing has been written since: the bytes on
+    /// disk are those of the undone commit
+    pub undone_trunc: bool,
 }
 
 impl<T: Elem> Model<T> {
@@ -293,11 +305,15 @@ impl<T: Elem> Model<T> {
             chain: vec![Snap {
                 items: vec![],
                 stamp: 0,
+                truncating: false,
             }],
             records: BTreeMap::new(),
             commits_done: 0,
             uncommitted: false,
             tainted: false,
+            truncated_since_commit: false,
+            damaged: BTreeSet::new(),
+            undone_trunc: false,
         }
     }
     pub fn holes(&self) -> Vec<usize> {
@@ -321,6 +337,7 @@ impl<T: Elem> Model<T> {
         self.stored = self.items.len();
         self.stored_items = self.phys.clone();
         self.stored_uncertain = false;
+        self.undone_trunc = false;
     }
     fn set(&mut self, i: usize, v: T) {
         if i == self.items.len() {
@@ -345,6 +362,7 @@ impl<T: Elem> Model<T> {
         Snap {
             items: self.items.clone(),
             stamp: self.stamp,
+            truncating: self.truncated_since_commit,
         }
     }
     fn restore(&mut self, s: &Snap<T>) {
@@ -446,12 +464,13 @@ where
     }
 
     fn reimport(&mut self) -> vecdb::Result<()> {
+        let retention = self.retention();
         self.vec_mut().flush()?;
         self.db().flush()?;
         self.vec = None;
         self.db = None;
         let db = Database::open(&self.dir)?;
-        let v = V::s_import(&db, self.retention())?;
+        let v = V::s_import(&db, retention)?;
         self.db = Some(db);
         self.vec = Some(v);
         Ok(())
@@ -633,6 +652,7 @@ where
                     m.cut(i);
                     m.epoch += 1;
                     m.uncommitted = true;
+                    m.truncated_since_commit = true;
                 }
                 Ok(String::new())
             }
@@ -710,6 +730,7 @@ where
                 if k > 0 {
                     let base = m.chain.last().cloned().unwrap();
                     m.records.retain(|st, _| *st < s);
+                    m.damaged.retain(|st| *st < s);
                     while m.records.len() > k - 1 {
                         let first = *m.records.keys().next().unwrap();
                         m.records.remove(&first);
@@ -722,6 +743,7 @@ where
                 m.chain.push(snap);
                 m.commits_done += 1;
                 m.uncommitted = false;
+                m.truncated_since_commit = false;
                 Ok(String::new())
             }
             VecOp::Rollback
@@ -735,16 +757,27 @@ where
                 let Some(target) = m.records.get(&m.stamp).cloned() else {
                     return Err("IO");
                 };
-                if !matches!(op, VecOp::Rollback) && !matches!(op, VecOp::FaultDeleteThenRollback) {
+                let damaging = matches!(
+                    op,
+                    VecOp::FaultTruncateThenRollback(_) | VecOp::FaultLenFieldThenRollback(..)
+                );
+                if damaging {
+                    let st = m.stamp;
+                    m.damaged.insert(st);
+                }
+                if damaging || m.damaged.contains(&m.stamp) {
                     // damaged record: an error with no effect is expected; a success is
                     // tolerated only if it lands exactly on the record's true target
                     return Err("?damaged");
                 }
                 m.restore(&target);
                 if m.chain.len() > 1 {
-                    m.chain.pop();
+                    if m.chain.pop().is_some_and(|s| s.truncating) {
+                        m.undone_trunc = true;
+                    }
                 }
                 m.uncommitted = false;
+                m.truncated_since_commit = false;
                 Ok(String::new())
             }
             VecOp::RollbackBefore(d) => {
@@ -759,18 +792,51 @@ where
                     };
                     m.restore(&target);
                     if m.chain.len() > 1 {
-                        m.chain.pop();
+                        if m.chain.pop().is_some_and(|s| s.truncating) {
+                            m.undone_trunc = true;
+                        }
                     }
                 }
                 m.uncommitted = false;
+                m.truncated_since_commit = false;
                 Ok(format!("{}", m.stamp))
             }
         }
     }
 
-    fn situation(&self) -> String {
+    /// Situation class of the pre-state (and, for rollbacks, of the undo path).
+    fn situation(&self, op: &VecOp) -> String {
         let v = self.vec();
         let mut s = String::new();
+        let m = &self.model;
+        // how many commits would this op undo, and does the path cross a truncating commit
+        // before its last step (then the bytes on disk belong to an undone future)
+        let n_undo = match op {
+            VecOp::Rollback => usize::from(m.records.contains_key(&m.stamp)),
+            VecOp::RollbackBefore(d) => {
+                let t = (m.stamp + 1).saturating_sub(*d);
+                let mut n = 0;
+                let mut idx = m.chain.len() - 1;
+                let mut stamp = m.stamp;
+                while stamp >= t && m.records.contains_key(&stamp) && idx > 0 {
+                    n += 1;
+                    idx -= 1;
+                    stamp = m.chain[idx].stamp;
+                }
+                n
+            }
+            _ => 0,
+        };
+        if n_undo >= 2 {
+            s.push_str("undoN;");
+        }
+        let path_trunc = n_undo >= 2
+            && m.chain[m.chain.len() - (n_undo - 1)..]
+                .iter()
+                .any(|c| c.truncating);
+        if m.undone_trunc || path_trunc {
+            s.push_str("chain_over_trunc;");
+        }
         let stored = v.stored_len();
         let real = guarded(|| v.real_stored_len()).unwrap_or(usize::MAX);
         if v.pushed_len() > 0 {
@@ -838,7 +904,7 @@ where
     }
 
     /// C07: the on-disk page index, parsed independently of the library.
-    fn page_index_problems(&self) -> Vec<(String, String)> {
+    fn page_index_problems(&self, after_write: bool) -> Vec<(String, String)> {
         let mut out = Vec::new();
         let db = self.db();
         let Some(pr) = db.get_region(&format!("{VEC_NAME}/usize_pages")) else {
@@ -904,13 +970,13 @@ where
             }
             total += *vals as usize;
         }
-        if total != real {
+        if after_write && total != real {
             out.push((
                 "page_counts_vs_real_stored_len".into(),
                 format!("sum {total}, real_stored_len {real}"),
             ));
         }
-        if stored == real {
+        if after_write && stored == real {
             if pos != dlen as u64 {
                 out.push((
                     "data_region_end".into(),
@@ -1043,7 +1109,7 @@ where
                 if cfg.has("rollback") {
                     v.push(VecOp::Rollback);
                 }
-                if cfg.has("rollback_before") {
+                if cfg.has("rollback_before") && m.damaged.is_empty() {
                     for d in [1u64, 2, 3, 1000] {
                         if d <= m.stamp + 1 || d == 1000 {
                             v.push(VecOp::RollbackBefore(d));
@@ -1093,7 +1159,7 @@ where
             }
             _ => None,
         };
-        let situation = if check { self.situation() } else { String::new() };
+        let situation = if check { self.situation(op) } else { String::new() };
         let pre_key = if check { Some(self.key()) } else { None };
         let pre_obs = if check { self.observe().ok() } else { None };
         let pre_changes = if check { self.list_changes() } else { vec![] };
@@ -1157,7 +1223,9 @@ where
                 let target = pre_model.records.get(&pre_model.stamp).cloned().unwrap();
                 self.model.restore(&target);
                 if self.model.chain.len() > 1 {
-                    self.model.chain.pop();
+                    if self.model.chain.pop().is_some_and(|s| s.truncating) {
+                        self.model.undone_trunc = true;
+                    }
                 }
                 self.model.uncommitted = false;
                 expected = Ok(String::new());
@@ -1165,6 +1233,12 @@ where
             } else {
                 expected = Err("*".into());
             }
+        }
+
+        // rollback_before when no change record exists at all: the statement does not say
+        // whether that is "nothing to do" or an error; accept an error without effect.
+        if matches!(op, VecOp::RollbackBefore(_)) && pre_model.records.is_empty() && result.is_err() {
+            expected = Err("*".into());
         }
 
         // --- outcome
@@ -1305,7 +1379,16 @@ where
 
         // --- C07: page index well-formed
         if cfg.page_index && V::COMPRESSED {
-            match guarded(|| self.page_index_problems()) {
+            let after_write = result.is_ok()
+                && matches!(
+                    op,
+                    VecOp::Write
+                        | VecOp::Flush
+                        | VecOp::StampedWrite(_)
+                        | VecOp::Commit(_)
+                        | VecOp::Reimport
+                );
+            match guarded(|| self.page_index_problems(after_write)) {
                 Ok(ps) => {
                     for (k, d) in ps {
                         viols.push(Violation {
@@ -1325,7 +1408,10 @@ where
 
         // --- C08 / C20: read battery
         if cfg.reads && viols.is_empty() {
-            let (mut vs, n_calls) = vecreads::battery::<V>(self.vec(), &self.model, class, &situation);
+            // the battery reads the state reached by this step: classify that state
+            let post = self.situation(&VecOp::Write);
+            let (mut vs, n_calls) =
+                vecreads::battery::<V>(self.vec(), &self.model, class, &post, cfg.holed_cursor);
             *self.counters.entry("read_calls").or_default() += n_calls;
             viols.append(&mut vs);
         }
@@ -1362,12 +1448,12 @@ where
         let m = &self.model;
         bytes.extend_from_slice(
             format!(
-                "|{}|{}|{}|{}|{}",
+                "|{}|{}|{}|{}|{:?}",
                 m.epoch % 5,
                 m.uncommitted,
                 m.tainted,
                 m.commits_done,
-                m.stored_uncertain
+                (m.stored_uncertain, m.truncated_since_commit, m.undone_trunc, &m.damaged)
             )
             .as_bytes(),
         );
@@ -1376,7 +1462,7 @@ where
         let chain: Vec<(u64, u64)> = m
             .chain
             .iter()
-            .map(|s| (s.stamp, hash64(&s.items.iter().map(|v| v.map(|x| x.bits())).collect::<Vec<_>>())))
+            .map(|s| (s.stamp, hash64(&(s.truncating, s.items.iter().map(|v| v.map(|x| x.bits())).collect::<Vec<_>>()))))
             .collect();
         let recs: Vec<(u64, u64)> = m
             .records
@@ -1389,6 +1475,47 @@ where
 
     fn take_counters(&mut self) -> Vec<(&'static str, u64)> {
         std::mem::take(&mut self.counters).into_iter().collect()
+    }
+
+    fn op_timeout_ms(cfg: &VecCfg) -> u64 {
+        cfg.op_timeout_ms
+    }
+
+    fn abort_verdict(cfg: &VecCfg, op: &VecOp) -> (String, String) {
+        if cfg.reads && !op.kind().starts_with("fault_") {
+            let class = if V::RAW { "raw" } else if V::COMPRESSED { "compressed" } else { "eager_raw" };
+            let holes = if matches!(op, VecOp::Delete(_) | VecOp::Take(_)) || cfg.holed_cursor {
+                "holes;"
+            } else {
+                ""
+            };
+            return (
+                "C08".into(),
+                format!("{class}|read:?|{holes}|hang_or_abort"),
+            );
+        }
+        let class = if V::RAW {
+            "raw"
+        } else if V::COMPRESSED {
+            "compressed"
+        } else {
+            "eager_raw"
+        };
+        let kind = op.kind();
+        let prop = if kind.starts_with("fault_") {
+            "C16,C17"
+        } else if matches!(op, VecOp::Commit(_) | VecOp::Rollback | VecOp::RollbackBefore(_)) {
+            "C04"
+        } else if V::COMPRESSED {
+            "C03,C07"
+        } else {
+            "C03"
+        };
+        let detail = match op {
+            VecOp::FaultLenFieldThenRollback(f, _) => format!("field{f}"),
+            _ => String::new(),
+        };
+        (prop.into(), format!("{class}|{kind}|{detail}|process_abort"))
     }
 }
 
